@@ -207,29 +207,28 @@ Section Flat.
   Lemma readback_paths rs : map r_path (map readback_record rs) = map r_path rs.
   Proof. rewrite map_map. apply map_ext. intros r. unfold readback_record. destruct (r_dir r); reflexivity. Qed.
 
-  (* C02, flat history, folder mode: the run writes one generation; its records are exactly the entries that no ignore
-     pattern excludes -- every one of them, each once, and nothing else *)
-  Theorem create_flat_exact t req no_dh ip ifl :
+  (* the shape of a folder-mode run over a flat history that does not abort: the session produced by the fold over the
+     traversal events is validated and committed as ONE generation of the root history *)
+  Lemma create_flat_shape t req no_dh ip ifl :
     load C cdig t = inl [h0] -> is_dir C t = true -> req <> [] ->
     let spec := set_patterns (latest_patterns (lh_gens h0)) ip (pattern_file_lines ifl) in
-    let o := snd (create_folder Hb matches C cdig ser t req no_dh false ip ifl) in
-    o_outcome o <> Abort ->
-    exists doc, o_written o = [([], doc)] /\ NoDup (map r_path (g_records doc)) /\
-                forall q, In q (map r_path (g_records doc)) <-> In q (map fst (entries matches C spec [] t)).
+    let run := create_folder Hb matches C cdig ser t req no_dh false ip ifl in
+    o_outcome (snd run) <> Abort ->
+    exists sess recs0,
+      sess = fst (fold_left (process_event Hb matches C [h0] (sort_fmts req) no_dh spec t) (events spec [] t) ([], 0)) /\
+      validate_records (recs sess) = Some recs0 /\
+      let doc := new_doc InPlace (sess_list sess []) recs0 spec [] h0 in
+      o_written (snd run) = [([], doc)] /\
+      fst run = set_hist C [] (mkHist C (h_files C (match get_hist C t [] with Some x => x | None => mkHist C [] None end)
+                                           ++ [mkMfile C (g_no doc) (ser doc) doc])
+                                      (Some (lh_chain h0 ++ [mkCentry (g_no doc) (g_no doc) (cdig (ser doc))]))) t.
   Proof.
     intros Hl Hd Hreq. cbn zeta. unfold create_folder. rewrite Hl.
     change (root_hist [h0]) with h0.
     set (spec := set_patterns (latest_patterns (lh_gens h0)) ip (pattern_file_lines ifl)).
     set (evs := events spec [] t).
-    destruct (fold_events_inv (sort_fmts req) no_dh spec t (sort_fmts_nonempty req Hreq) evs [] 0 [] [])
-      as [F' [D' [[Hn Hi] [HF HD]]]].
-    { split; [constructor|]. intros q. cbn. tauto. }
-    { intros q Hq. eapply files_nonempty. exact Hq. }
     match goal with |- context [fold_left ?f ?l ?i] => remember (fold_left f l i) as R eqn:Efold end.
-    assert (Hn' : NoDup (map r_path (recs (fst R)))) by (subst R; exact Hn).
-    assert (Hi' : forall q, In q (map r_path (recs (fst R))) <-> In q F' \/ In q D' /\ q <> []) by (subst R; exact Hi).
-    clear Hn Hi. rename Hn' into Hn. rename Hi' into Hi.
-    destruct R as [sess fails]. symmetry in Efold. cbn [fst] in Hn, Hi. cbn [dr_sess dr_abort dr_found].
+    destruct R as [sess fails]. symmetry in Efold. cbn [dr_sess dr_abort dr_found].
     unfold commit. cbn [fold_left].
     pose proof (commit_one_cases C cdig ser InPlace sess spec (mkCS C t [] [] [] false) h0) as Hcase.
     set (cs' := commit_one C cdig ser InPlace sess spec (mkCS C t [] [] [] false) h0) in *.
@@ -258,25 +257,48 @@ Section Flat.
           + destruct (process_event Hb matches C [h0] (sort_fmts req) no_dh spec t (s0, f0) (EvDir p k)) as [s1 f1]. eapply IH; eauto. }
       destruct (sess_get sess []) as [v|]; [|congruence].
       destruct (validate_records (nl_records v)); discriminate.
-    - (* abort: excluded *)
-      intros Hout. exfalso. apply Hout. cbn [snd o_outcome]. rewrite Ha. reflexivity.
-    - intros _. cbn [snd o_written]. exists doc. rewrite Hw, h0_root. cbn [cs_written app].
-      split; [reflexivity|]. rewrite Hdoc. unfold new_doc. cbn [g_records]. rewrite readback_paths, (validate_records_paths _ _ Hv).
-      rewrite Hnl, h0_root. fold (recs sess). split; [exact Hn|].
-      intros q. rewrite Hi, HF, HD. cbn [In].
-      pose proof (reported_are_events spec t [] q Hd) as Hre. fold evs in Hre.
-      pose proof (traversal_exact matches C spec t []) as Hperm. fold evs in Hperm.
-      assert (Hin : In q (map fst (reported evs)) <-> In q (map fst (entries matches C spec [] t))).
-      { split; apply Permutation_in; [|apply Permutation_sym]; apply Permutation_map; exact Hperm. }
-      rewrite <- Hin. split.
-      + intros [[H|[]]|[[H|[]] Hne]].
-        * destruct (proj2 Hre (or_introl H)) as [->|Hr']; [exfalso; eapply files_nonempty; [exact H|reflexivity]|exact Hr'].
-        * destruct (proj2 Hre (or_intror H)) as [->|Hr']; [congruence|exact Hr'].
-      + intros H. destruct (proj1 Hre (or_intror H)) as [Hf|Hdd]; [left; left; exact Hf|right].
-        split; [left; exact Hdd|]. intros ->.
-        (* the root itself is never reported: reported paths are strictly below the root *)
-        apply Hin in H. apply in_map_iff in H. destruct H as [[q0 d] [Hq0 H]]. cbn in Hq0. subst q0.
-        apply entries_visible in H. inversion H as [n Hn' Heq|q1 n Hv' Hn' Heq]; destruct n; discriminate || (apply (f_equal (@length text)) in Heq; rewrite app_length in Heq; cbn in Heq; lia).
+    - intros Hout. exfalso. apply Hout. cbn [snd o_outcome]. rewrite Ha. reflexivity.
+    - intros _. exists sess, recs0. split; [reflexivity|].
+      rewrite h0_root in Hnl, Hw, Ht, Hdoc. cbn [cs_refs refs_get cs_tree cs_written app] in Hdoc, Ht, Hw.
+      split; [rewrite <- Hv, Hnl; reflexivity|]. cbn zeta. rewrite <- Hnl, <- Hdoc.
+      cbn [snd fst o_written]. split; [exact Hw|exact Ht].
+  Qed.
+
+  (* C02, flat history, folder mode: the run writes one generation; its records are exactly the entries that no ignore
+     pattern excludes -- every one of them, each once, and nothing else *)
+  Theorem create_flat_exact t req no_dh ip ifl :
+    load C cdig t = inl [h0] -> is_dir C t = true -> req <> [] ->
+    let spec := set_patterns (latest_patterns (lh_gens h0)) ip (pattern_file_lines ifl) in
+    let o := snd (create_folder Hb matches C cdig ser t req no_dh false ip ifl) in
+    o_outcome o <> Abort ->
+    exists doc, o_written o = [([], doc)] /\ NoDup (map r_path (g_records doc)) /\
+                forall q, In q (map r_path (g_records doc)) <-> In q (map fst (entries matches C spec [] t)).
+  Proof.
+    intros Hl Hd Hreq. cbn zeta. intros Hout.
+    destruct (create_flat_shape t req no_dh ip ifl Hl Hd Hreq Hout) as [sess [recs0 [Esess [Hv [Hw _]]]]].
+    set (spec := set_patterns (latest_patterns (lh_gens h0)) ip (pattern_file_lines ifl)) in *.
+    set (evs := events spec [] t) in *.
+    destruct (fold_events_inv (sort_fmts req) no_dh spec t (sort_fmts_nonempty req Hreq) evs [] 0 [] [])
+      as [F' [D' [[Hn0 Hi0] [HF HD]]]].
+    { split; [constructor|]. intros q. cbn. tauto. }
+    { intros q Hq. eapply files_nonempty. exact Hq. }
+    assert (Hn : NoDup (map r_path (recs sess))) by (rewrite Esess; exact Hn0).
+    assert (Hi : forall q, In q (map r_path (recs sess)) <-> In q F' \/ In q D' /\ q <> []) by (rewrite Esess; exact Hi0).
+    eexists. split; [exact Hw|]. unfold new_doc. cbn [g_records]. rewrite readback_paths, (validate_records_paths _ _ Hv).
+    split; [exact Hn|].
+    intros q. rewrite Hi, HF, HD. cbn [In].
+    pose proof (reported_are_events spec t [] q Hd) as Hre. fold evs in Hre.
+    pose proof (traversal_exact matches C spec t []) as Hperm. fold evs in Hperm.
+    assert (Hin : In q (map fst (reported evs)) <-> In q (map fst (entries matches C spec [] t))).
+    { split; apply Permutation_in; [|apply Permutation_sym]; apply Permutation_map; exact Hperm. }
+    rewrite <- Hin. split.
+    + intros [[H|[]]|[[H|[]] Hne]].
+      * destruct (proj2 Hre (or_introl H)) as [->|Hr']; [exfalso; eapply files_nonempty; [exact H|reflexivity]|exact Hr'].
+      * destruct (proj2 Hre (or_intror H)) as [->|Hr']; [congruence|exact Hr'].
+    + intros H. destruct (proj1 Hre (or_intror H)) as [Hf|Hdd]; [left; left; exact Hf|right].
+      split; [left; exact Hdd|]. intros ->.
+      apply Hin in H. apply in_map_iff in H. destruct H as [[q0 d] [Hq0 H]]. cbn in Hq0. subst q0.
+      apply entries_visible in H. inversion H as [n Hn' Heq|q1 n Hv' Hn' Heq]; destruct n; discriminate || (apply (f_equal (@length text)) in Heq; rewrite app_length in Heq; cbn in Heq; lia).
   Qed.
 End Flat.
 
